@@ -226,9 +226,13 @@ func (reg *Reg) TagList(ctx context.Context, r ref.Ref, opts ...scheme.TagOpts) 
 			if link == nil {
 				return tl, fmt.Errorf("tag list, failed to get URL of previous request")
 			}
+			prev := link.String()
 			link, err = link.Parse(next.URI)
 			if err != nil {
 				return tl, fmt.Errorf("tag list failed to parse Link: %w", err)
+			}
+			if link.String() == prev {
+				return tl, fmt.Errorf("tag list Link header points to the current page: %s", prev)
 			}
 			tlAdd, err := reg.tagListLink(ctx, r, config, link)
 			if err != nil {
